@@ -143,6 +143,9 @@ func (e *env) runSel(line string, toks []string) {
 		e.r.Hit("query:both")
 	}
 	e.r.Hit("result:" + strings.Fields(res)[0])
+	if _, std := specNames[strings.TrimPrefix(policy, specPrefix)]; !std && strings.ContainsAny(policy, "_-.#") {
+		e.r.Hit("query:untabled-name-with-separator/" + strings.Fields(res)[0])
+	}
 	if len(orig) >= 3 && len(orig) <= 6 {
 		var sb strings.Builder
 		for _, x := range orig {
@@ -220,6 +223,9 @@ var uriPool = []string{
 	specPrefix + "None", specPrefix + "Basic128Rsa15", specPrefix + "Basic256", specPrefix + "Basic256Sha256",
 	specPrefix + "Aes128_Sha256_RsaOaep", specPrefix + "Aes256_Sha256_RsaPss",
 	specPrefix + "Foo", specPrefix, "", "None", "Basic256", "http://example.com/policy#X", specPrefix + "Basic256 ",
+	// policies outside the table whose names carry separators (1.05 ECC / PubSub profiles and look-alikes)
+	specPrefix + "ECC_nistP256", specPrefix + "ECC_curve25519", specPrefix + "PubSub_Aes128_CTR", specPrefix + "a_b",
+	specPrefix + "Aes128Sha256RsaOaep", specPrefix + "basic256", specPrefix + "Basic256#", specPrefix + "Basic-256",
 }
 
 var queryPool = []string{
@@ -227,6 +233,21 @@ var queryPool = []string{
 	"Aes128_Sha256_RsaOaep", "Aes256_Sha256_RsaPss", "Foo", "none", "http://example.com/policy#X",
 	specPrefix + "None", specPrefix + "Basic256", specPrefix + "Basic256Sha256", specPrefix + "Foo", specPrefix,
 	specPrefix + "Aes128_Sha256_RsaOaep", "Basic256 ", "#None", "http://opcfoundation.org/UA/SecurityPolicy",
+	"ECC_nistP256", specPrefix + "ECC_nistP256", "ECC_curve25519", "PubSub_Aes128_CTR", "a_b", "_", "ECCnistP256",
+	specPrefix + "Aes128Sha256RsaOaep", "basic256", "BASIC256", "Basic-256", "Basic256#", " Basic256", "Basic_256",
+}
+
+// nameAlphabet: what a policy name can be made of (letters, digits and every separator a
+// "normalisation" might be tempted to touch)
+const nameAlphabet = "abzABZ019__--..##//::%% "
+
+func randName(rnd *h.Rand) string {
+	n := 1 + rnd.Intn(8)
+	b := make([]byte, n)
+	for i := range b {
+		b[i] = nameAlphabet[rnd.Intn(len(nameAlphabet))]
+	}
+	return string(b)
 }
 
 func (e *env) genSel() string {
@@ -249,6 +270,9 @@ func (e *env) genSel() string {
 		uris[i] = uriPool[rnd.Intn(len(uriPool))]
 		if rnd.Chance(3) {
 			uris[i] = string(rnd.Bytes(1 + rnd.Intn(4))) // arbitrary bytes
+		}
+		if rnd.Chance(12) {
+			uris[i] = specPrefix + randName(rnd) // a policy outside the table
 		}
 	}
 	levels := make([]int, nl)
@@ -295,6 +319,11 @@ func (e *env) genFmt() string {
 		q = specPrefix[:rnd.Intn(len(specPrefix)+1)] + q
 	case 2:
 		q = uriPool[rnd.Intn(len(uriPool))]
+	case 3:
+		q = randName(rnd)
+		if rnd.Bool() {
+			q = specPrefix + q
+		}
 	}
 	return "fmt " + hx(q)
 }
@@ -342,7 +371,7 @@ func main() {
 	}
 	for _, b := range []string{"len:0", "len:1", "len:2-4", "len:5+", "query:dont-care-both", "query:mode-only", "query:policy-only",
 		"query:both", "result:ok", "result:err", "ties-among-best-matches", "best-match-below-top-level", "some-but-not-all-match",
-		"fmt:empty", "fmt:standard-name", "fmt:uri", "fmt:other-name"} {
+		"fmt:empty", "fmt:standard-name", "fmt:uri", "fmt:other-name", "query:untabled-name-with-separator/ok"} {
 		if r.Distribution[b] == 0 {
 			r.Unreached = append(r.Unreached, b)
 		}
